@@ -29,29 +29,29 @@ DYNAMIC_KEY_OK = {
 
 
 def run(prog, chk):
-    X.check_sinks(prog, chk)
-    X.text_bypass(prog, chk)
-    X.check_readers(prog, chk)
-    no_duplicate_attrs(prog, chk)
-    root_synthesis(prog, chk)
+    chk.rule(X.check_sinks, prog, chk)
+    chk.rule(X.text_bypass, prog, chk)
+    chk.rule(X.check_readers, prog, chk)
+    chk.rule(no_duplicate_attrs, prog, chk)
+    chk.rule(root_synthesis, prog, chk)
     from props import geomalg
-    geomalg.check_sites(prog, chk, "C02")  # what the root start tag gets, per presence case (A17 site root-extent)
-    eof_open_elements(prog, chk)
-    other_is_whole_input_event(prog, chk)
+    chk.rule(geomalg.check_sites, prog, chk, "C02")  # what the root start tag gets, per presence case (A17 site root-extent)
+    chk.rule(eof_open_elements, prog, chk)
+    chk.rule(other_is_whole_input_event, prog, chk)
     from props import C03
-    C03.top_level_predicate(prog, chk)
-    C03.qualified_names(prog, chk)  # start and end tag carry the same (qualified) name
-    C03.attrmap_keys_verbatim(prog, chk)  # an attribute stored under another name can collide with an existing one (duplicate attribute)
-    no_double_hyphen_literals(prog, chk)
+    chk.rule(C03.top_level_predicate, prog, chk)
+    chk.rule(C03.qualified_names, prog, chk)  # start and end tag carry the same (qualified) name
+    chk.rule(C03.attrmap_keys_verbatim, prog, chk)  # an attribute stored under another name can collide with an existing one (duplicate attribute)
+    chk.rule(no_double_hyphen_literals, prog, chk)
     from props import strops
-    strops.check_evaluation_sites(prog, chk)  # what is written raw (comments) is not the product of an evaluation
-    attribute_lists_validated(prog, chk)
+    chk.rule(strops.check_evaluation_sites, prog, chk)  # what is written raw (comments) is not the product of an evaluation
+    chk.rule(attribute_lists_validated, prog, chk)
     from props import C04, C07
-    C04.filter_closed(prog, chk)  # an attribute copied to the output *and* added again (data-src-line, class) is a duplicate attribute
+    chk.rule(C04.filter_closed, prog, chk)  # an attribute copied to the output *and* added again (data-src-line, class) is a duplicate attribute
     if "cli" in prog.features:
         C07.output_file(prog, chk)  # the output file holds the result and nothing else (no tail of an earlier, longer file after the root's end tag)
     from props import C01
-    C01.utf8_boundary(prog, chk)  # output is UTF-8 because every input event was validated (pass-through carries bytes along)
+    chk.rule(C01.utf8_boundary, prog, chk)  # output is UTF-8 because every input event was validated (pass-through carries bytes along)
 
 
 def attribute_lists_validated(prog, chk):
